@@ -280,6 +280,15 @@ func embeddedSel() int {
 	return v.bar.N + u.bar.N
 }
 
+// ... and a field declared by embedding a local alias of another local type
+func embeddedAlias() int {
+	type a struct{ n int }
+	type bar = a
+	type c struct{ bar }
+	v := c{bar: a{n: baz.Base()}}
+	return v.bar.n
+}
+
 // an unparenthesised declaration that ends in a package qualifier, with a closure parameter named like the import
 var scale = func(bar int) baz.Dur { return baz.Dur(bar) }(3) * baz.Second
 
@@ -356,6 +365,9 @@ func Check() string {
 	}
 	if wrapped() != "hi w" || tswitch("q") != "q/10" || tswitch(uint(5)) != "15" || tswitch(7) != "n" || embedded() != 12 {
 		return "embedded type names / type-switch variables differ"
+	}
+	if embeddedAlias() != 10 {
+		return "embedded alias differs"
 	}
 	if embeddedSel() != 11 || int(scale) != 3000 || forward(-2) != 12 || forward(3) != 13 || firstOf([]int{7, 8}) != 7 {
 		return "embedded selectors / trailing qualifier / forward references differ"
